@@ -467,7 +467,47 @@ def poly_part(run, tier, g):
             return Fraction(0) if y == 0 else valuation_eval(t.arg1, env) / y
         if t.is_comb('power', 2):
             return valuation_eval(t.arg1, env) ** int(py_sem(t.arg))      # the exponent is a ground natural-number term
+        if t.is_comb('of_nat', 1):
+            return Fraction(nat_valuation(t.arg, env))
         raise ValueError
+
+    def nat_valuation(t, env):
+        """Natural-number meaning: subtraction is truncated."""
+        if t.is_var():
+            return env[t.name]
+        if t.is_number():
+            return int(t.dest_number())
+        if t.is_plus():
+            return nat_valuation(t.arg1, env) + nat_valuation(t.arg, env)
+        if t.is_times():
+            return nat_valuation(t.arg1, env) * nat_valuation(t.arg, env)
+        if t.is_minus():
+            return max(0, nat_valuation(t.arg1, env) - nat_valuation(t.arg, env))
+        raise ValueError
+
+    def of_nat_goal():
+        """Equations about of_nat applied to natural-number arithmetic (numerals and the variables m, n), true ones and the
+        ones that hold only if natural subtraction were not truncated."""
+        onat = lambda e: Const('of_nat', TFun(NatType, RealType))(e)
+        mv, nv = Var('m', NatType), Var('n', NatType)
+        nsub, nadd, nmul = kterm.minus(NatType), kterm.plus(NatType), kterm.times(NatType)
+        a_, b_ = r.randint(0, 5), r.randint(0, 6)
+        k = r.randrange(8)
+        if k == 0:
+            return onat(nsub(Nat(a_), Nat(b_))), Real(a_ - b_ if r.random() < 0.6 else max(0, a_ - b_))
+        if k == 1:
+            return Real(4) + onat(nsub(Nat(a_), Nat(b_))), Real(4 + a_ - b_)
+        if k == 2:
+            return onat(nsub(mv, nv)) + onat(nv), onat(mv)                  # false where m < n
+        if k == 3:
+            return onat(nadd(mv, nv)), onat(mv) + onat(nv)                  # true
+        if k == 4:
+            return onat(nmul(mv, nv)), onat(mv) * onat(nv)                  # true
+        if k == 5:
+            return onat(nsub(mv, nv)), onat(mv) - onat(nv)                  # false where m < n
+        if k == 6:
+            return onat(nsub(nadd(mv, Nat(a_)), Nat(b_))), onat(mv) + Real(a_ - b_)      # false where m + a < b
+        return onat(nadd(nsub(mv, nv), nv)), onat(mv)                       # false where m < n
 
     n = 150 if tier == 'quick' else 2000
     acc = 0
@@ -498,6 +538,8 @@ def poly_part(run, tier, g):
                     a, b = a * base, b * base
         if _ % 4 == 1:
             a, b = quotient_goal()
+        if _ % 8 == 3:
+            a, b = of_nat_goal()
         goal = Eq(a, b)
         th, err = check_step('real_norm', goal)
         run.stat('real_norm:' + ('acc' if th is not None else 'rej'))
@@ -507,7 +549,8 @@ def poly_part(run, tier, g):
         acc += 1
         import itertools
         grid = [dict(zip('xyz', pt)) for pt in itertools.product([Fraction(0), Fraction(1), Fraction(-1), Fraction(2)], repeat=3)]
-        for env in [{v.name: Fraction(r.randint(-5, 5), r.randint(1, 4)) for v in xs} for _j in range(6)] + grid:
+        grid = [dict(g_, m=mn[0], n=mn[1]) for g_ in grid[:16] for mn in ((0, 0), (0, 2), (2, 0), (1, 3), (3, 1))] + [dict(g_, m=1, n=1) for g_ in grid]
+        for env in [dict({v.name: Fraction(r.randint(-5, 5), r.randint(1, 4)) for v in xs}, m=r.randint(0, 4), n=r.randint(0, 4)) for _j in range(6)] + grid:
             try:
                 va, vb = valuation_eval(a, env), valuation_eval(b, env)
             except Exception:
